@@ -1,5 +1,6 @@
 import RemocModel.Table.Lemmas
 import RemocModel.Table.ConnSafe
+import RemocModel.Props.C09
 set_option linter.unusedSimpArgs false
 
 /-!
